@@ -20,6 +20,10 @@ def canon(v: Any):
     if isinstance(v, bool):
         return ('bool', v)
     if isinstance(v, Enum):
+        import enum
+        if isinstance(v, enum.Flag):
+            # combinations and unnamed values of a flag enum are told apart by value
+            return ('enum', type(v).__module__, type(v).__qualname__, v.name, int(v.value))
         return ('enum', type(v).__module__, type(v).__qualname__, v.name)
     if isinstance(v, int):
         return ('int', v)
